@@ -4,13 +4,34 @@
    [lastRunAt]/[changeStart] is [None] ("infinitely long ago": Go's Since
    saturates at the maximal Duration, which is >= every configured period).
 
-   Case format (harness -> cases.v):
-     (cfg, t0, script, observed)
-       cfg      = (consecutiveN, minStablePeriod, minTimeBetweenCalls, cooldown)
-       t0       = clock reading when run() starts
-       script   = list of (observation, time spent inside the predicate)
-       observed = list of (reaction, instant) seen on the implementation
-                  reaction true = OnChangeToTrue, false = OnChangeToFalse *)
+   The clock is an arbitrary MONOTONE clock that respects the two blocking
+   waits of the loop: a wait of d returns max(d,0) or later after it was
+   started (Go: time.After / time.Sleep return at once for d <= 0), and between
+   any two statements any non-negative amount of time may pass.  One iteration
+   reads the clock at three places; the script supplies, per iteration, the
+   three slacks ([item]):
+     i_pre   from the end of the previous iteration (lastRunAt = Now()) to the
+             reading Since(lastRunAt) at the top of the loop (scheduling)
+     i_d     from the end of the wait at the top of the loop (or from that
+             reading, when there is no wait) to the reading taken right after the
+             predicate returned (changeStart = Now() / Since(changeStart)):
+             overshoot of the timer + time spent inside the predicate
+     i_post  from that reading (plus the cool-down after OnChangeToFalse) to the
+             reading lastRunAt = Now() that ends the iteration: time spent in the
+             callback, overshoot of the cool-down sleep
+   Every execution under such a clock is the run of some script with
+   non-negative slacks (C20.GenEquiv proves this about the code the translator
+   reads off the source); the theorems of Property.v hold for ALL scripts.
+
+   Case format (harness -> cases.v): [Case n p i c t0 script obs_at reactions]
+       n p i c    = consecutiveN, minStablePeriod, minTimeBetweenCalls, cooldown
+       t0         = clock reading when run() starts
+       script     = list of [It observation pre d post]
+       obs_at     = instants at which the implementation's predicate returned
+       reactions  = list of (reaction, instant) seen on the implementation
+                    reaction true = OnChangeToTrue, false = OnChangeToFalse
+       (the instants of obs_at and reactions are written as offsets from t0: the
+       case files are dominated by the parsing of 61-bit literals otherwise) *)
 From Coq Require Import List ZArith Bool.
 Import ListNotations.
 Open Scope Z_scope.
@@ -34,41 +55,52 @@ Definition init : st :=
 Definition since_ge (now : Z) (t : option Z) (d : Z) : bool :=
   match t with None => true | Some t0 => d <=? now - t0 end.
 
-(* the wait at the top of the loop *)
+(* the earliest return of a blocking wait (After / Sleep) of [d] started at
+   [now]: a non-positive wait returns at once *)
+Definition wait_from (now d : Z) : Z := now + Z.max d 0.
+
+(* the wait at the top of the loop: [now] is the reading Since(lastRunAt) *)
 Definition wait_until (c : cfg) (s : st) (now : Z) : Z :=
   match lastRun s with
   | None => now
   | Some lr => let w := cI c - (now - lr) in if 0 <? w then now + w else now
   end.
 
+(* one iteration's input: the observation and the three slacks of the clock *)
+Record item := It { i_obs : bool; i_pre : Z; i_d : Z; i_post : Z }.
+
+Definition item_ok (o : item) : Prop := 0 <= i_pre o /\ 0 <= i_d o /\ 0 <= i_post o.
+
 (* an event of the trace: the observation, the instant it was evaluated at
    (clock reading after the predicate returned) and the reaction fired, if any *)
 Record ev := { e_obs : bool; e_at : Z; e_fire : bool }.
 
-(* One loop iteration. [d] is the time spent inside the predicate.
-   Returns the new state, the clock reading at the end of the iteration and
-   the event. *)
-Definition step (c : cfg) (s : st) (now : Z) (o : bool * Z) : st * Z * ev :=
-  let obs := fst o in
-  let t := wait_until c s now + snd o in
+(* One loop iteration, started when the clock reads [now].
+   Returns the new state, the clock reading at the end of the iteration
+   (= lastRunAt) and the event. *)
+Definition step (c : cfg) (s : st) (now : Z) (o : item) : st * Z * ev :=
+  let obs := i_obs o in
+  let t := wait_until c s (now + i_pre o) + i_d o in
   if negb (eqb obs (last s)) then
+    let te := t + i_post o in
     ({| last := obs; cnt := 1; start := Some t; trig := false;
-        stable := stable s; lastRun := Some t |}, t,
+        stable := stable s; lastRun := Some te |}, te,
      {| e_obs := obs; e_at := t; e_fire := false |})
   else
     let n := cnt s + 1 in
     if (cN c <=? n) && since_ge t (start s) (cP c)
        && negb (trig s) && negb (eqb obs (stable s)) then
-      let t' := if obs then t else t + cC c in
+      let te := (if obs then t else wait_from t (cC c)) + i_post o in
       ({| last := obs; cnt := n; start := start s; trig := true;
-          stable := obs; lastRun := Some t' |}, t',
+          stable := obs; lastRun := Some te |}, te,
        {| e_obs := obs; e_at := t; e_fire := true |})
     else
+      let te := t + i_post o in
       ({| last := obs; cnt := n; start := start s; trig := trig s;
-          stable := stable s; lastRun := Some t |}, t,
+          stable := stable s; lastRun := Some te |}, te,
        {| e_obs := obs; e_at := t; e_fire := false |}).
 
-Fixpoint run (c : cfg) (s : st) (now : Z) (script : list (bool * Z)) : list ev :=
+Fixpoint run (c : cfg) (s : st) (now : Z) (script : list item) : list ev :=
   match script with
   | [] => []
   | o :: rest =>
@@ -79,8 +111,19 @@ Fixpoint run (c : cfg) (s : st) (now : Z) (script : list (bool * Z)) : list ev :
 Definition reactions (tr : list ev) : list (bool * Z) :=
   flat_map (fun e => if e_fire e then [(e_obs e, e_at e)] else []) tr.
 
+(* the scripts of the first version of this model: (observation, time spent
+   inside the predicate), an otherwise idle clock *)
+Definition of_pair (o : bool * Z) : item := It (fst o) 0 (snd o) 0.
+Definition run_pairs (c : cfg) (s : st) (now : Z) (script : list (bool * Z)) : list ev :=
+  run c s now (map of_pair script).
+
 (* ---- correspondence entry point ---- *)
-Definition case := ((Z * Z * Z * Z) * Z * list (bool * Z) * list (bool * Z))%type.
+Record case := Case {
+  k_n : Z; k_p : Z; k_i : Z; k_c : Z; k_t0 : Z;
+  k_script : list item;
+  k_obs_at : list Z;
+  k_rx : list (bool * Z)
+}.
 
 Fixpoint eq_rx (a b : list (bool * Z)) : bool :=
   match a, b with
@@ -89,9 +132,18 @@ Fixpoint eq_rx (a b : list (bool * Z)) : bool :=
   | _, _ => false
   end.
 
-Definition run_case (k : case) : option (list (bool * Z)) :=
-  let '(p, t0, script, observed) := k in
-  let '(n, sp, iv, cd) := p in
-  let c := {| cN := n; cP := sp; cI := iv; cC := cd |} in
-  let m := reactions (run c init t0 script) in
-  if eq_rx m observed then None else Some m.
+Fixpoint eq_zs (a b : list Z) : bool :=
+  match a, b with
+  | [], [] => true
+  | x :: a', y :: b' => (x =? y) && eq_zs a' b'
+  | _, _ => false
+  end.
+
+(* compared: the instant of EVERY observation (not only of the firing ones) and
+   the reactions with their instants *)
+Definition run_case (k : case) : option (list Z * list (bool * Z)) :=
+  let c := {| cN := k_n k; cP := k_p k; cI := k_i k; cC := k_c k |} in
+  let tr := run c init (k_t0 k) (k_script k) in
+  let m := map (fun r => (fst r, snd r - k_t0 k)) (reactions tr) in
+  let at_ := map (fun e => e_at e - k_t0 k) tr in
+  if eq_zs at_ (k_obs_at k) && eq_rx m (k_rx k) then None else Some (at_, m).
